@@ -26,10 +26,10 @@ type c15StartRemote struct {
 	Ping func(ctx context.Context) error
 }
 
-func c15CallsStartingAtTeardown(rep *Report, prop string, links, callers int, budget time.Duration) {
+func c15CallsStartingAtTeardown(rep *Report, prop string, links, callers int, budget time.Duration, cancelCtx bool) {
 	rep.Evaluations++
 	rep.Distinct++
-	desc := map[string]any{"suite": "calls-starting-while-the-link-ends", "links": links, "callers": callers}
+	desc := map[string]any{"suite": "calls-starting-while-the-link-ends", "links": links, "callers": callers, "link_context_cancelled": cancelCtx}
 	before := len(panrpcGoroutines())
 	appCtx, appCancel := context.WithCancel(context.Background())
 	defer appCancel()
@@ -95,7 +95,11 @@ func c15CallsStartingAtTeardown(rep *Report, prop string, links, callers int, bu
 		for spin := 0; spin < (it%callers)*40; spin++ {
 			runtime.Gosched()
 		}
-		cancel()
+		// the link ends: its context is cancelled and its transport fails — or (cancelCtx = false) ONLY the transport
+		// fails while the link's context lives on, so that a caller has nothing but the pending-call table to wake it
+		if cancelCtx {
+			cancel()
+		}
 		close(transportClosed)
 		allBack := make(chan struct{})
 		go func() {
@@ -105,9 +109,11 @@ func c15CallsStartingAtTeardown(rep *Report, prop string, links, callers int, bu
 		}()
 		select {
 		case <-allBack:
+			cancel()
 		case <-time.After(watchdog):
+			cancel()
 			stuck++
-			rep.addViolation("property", prop+":calls-starting:hang", fmt.Sprintf("link %d of %d: the link's context was cancelled and its transport failed while %d calls were just starting — Link or one of the calls has not returned", done, links, callers), desc)
+			rep.addViolation("property", prop+":calls-starting:hang", fmt.Sprintf("link %d of %d: the link ended (context cancelled: %v; transport reads fail) while %d calls were just starting — Link or one of the calls has not returned", done, links, cancelCtx, callers), desc)
 		}
 	}
 	desc["links_done"] = done
